@@ -4,8 +4,8 @@ from . import common as C
 
 MANIFEST = dict(
    technique="Lean 4 proof (ParsePrimitive type dispatch + the C10 check-engine theorems + the C16 exactness theorems + exact binary64 rounding lemmas for float MultipleOf) + go/ast method table of the six primitive types regenerated on every run and decided whole (`decide +kernel`) + differential correspondence on real string / integer / float / bool / enum / literal schemas over every Go kind of input",
-   text="c01_accept_iff: for every primitive schema, check chain, environment and non-nil input, Parse succeeds iff the input is a value of the schema's type (or a pointer to one) and no check fails on the value threaded through the overwrites before it; c01_result: the returned value is exactly that threaded value; c01_foreign_rejected; c01_num_holds_spec bridges every numeric check to the mathematical relation (via C16); c01_float_multipleOf: for every pair of binary64 bit patterns the float MultipleOf check equals the documented epsilon-relation on the exact remainder and difference (rounding lemmas in Proofs/FloatMulRound); c01_float_cmp/_nan_rejected/_finite_iff/_safe_iff/_int; c01_enum_iff; c01_methods_classified: every exported method of ZodString/ZodIntegerTyped/ZodFloatTyped/ZodBool/ZodEnum/ZodLiteral in the CURRENT source is modelled (and delegates to the transcribed check factory) or listed as outside C01 (c01_opaque_methods pins that list). Tie: Gen/PrimMethods.lean and Gen/CaseTable.lean regenerated on every run; real String/StringPtr, Int8..Uint64/..Ptr, Float32/64/..Ptr, Bool/BoolPtr, Enum/EnumSlice/EnumPtr/Literal/LiteralOf/LiteralPtr schemas with boundary-directed chains on values, pointers, pointers to pointers and 27 foreign Go kinds; non-ASCII and invalid UTF-8 inputs through every chain (Unicode TrimSpace/ToLower/ToUpper modelled); the implementation is also judged directly by the documented meaning (spec verdict computed without the model's engine; literal regex patterns through the derivative matcher of Model/Regex.lean).",
-   note="Trusted: Lean kernel; axioms propext/Classical.choice/Quot.sound at most; harness + comparer; the Go toolchain's unicode tables (regenerated into Gen/CaseTable.lean) and utf8 decoding as transcribed in Model/StrU.lean (no theorem relates StrU to the ASCII model; the run does). String semantics are byte-level (Go len/HasPrefix/Contains). Regex: four fixed patterns and pure-literal patterns only; Email/JSON/JWT/MAC are C20's, Normalize/Slugify and Coerce are outside (pinned by c01_opaque_methods). The epsilon of float MultipleOf is the float-computed max(1e-10, |d|*1e-6) of the code comment. Float.Int accepts +-Inf (Trunc(Inf) == Inf), read as 'no fractional part'.",
+   text="c01_accept_iff: for every primitive schema, check chain, environment and non-nil input, Parse succeeds iff the input is a value of the schema's type (or a pointer to one) and no check fails on the value threaded through the overwrites before it; c01_result: the returned value is exactly that threaded value; c01_foreign_rejected; c01_num_holds_spec bridges every numeric check to the mathematical relation (via C16); c01_float_multipleOf: for every pair of binary64 bit patterns the float MultipleOf check equals the documented epsilon-relation on the exact remainder and difference (rounding lemmas in Proofs/FloatMulRound); c01_float_cmp/_nan_rejected/_finite_iff/_safe_iff/_int; c01_enum_iff; seenAt_compose (the returned value is the left-to-right composition of exactly the declared overwrites), trim_idem / lower_idem / upper_idem, strU_apply_ascii / strU_parse_ascii (Go's Unicode TrimSpace/ToLower/ToUpper model = ASCII model on ASCII input); c01_methods_classified: every exported method of ZodString/ZodIntegerTyped/ZodFloatTyped/ZodBool/ZodEnum/ZodLiteral in the CURRENT source is modelled (and delegates to the transcribed check factory) or listed as outside C01 (c01_opaque_methods pins that list). Tie: Gen/PrimMethods.lean and Gen/CaseTable.lean regenerated on every run; every exported constructor of the six types (String/StringPtr, Int8..Uint64/..Ptr, Float/Number/Float32/64/..Ptr, types.Byte/Rune/Integer/IntegerTyped/FloatTyped/StringTyped/BoolTyped incl. instantiations with named Go types, Bool/BoolPtr, Enum/EnumSlice/EnumPtr/Literal/LiteralOf/LiteralPtr) with boundary-directed chains on values, pointers, pointers to pointers and 27 foreign Go kinds; non-ASCII and invalid UTF-8 inputs through every chain (Unicode TrimSpace/ToLower/ToUpper modelled); the implementation is also judged directly by the documented meaning (spec verdict computed without the model's engine; literal regex patterns through the derivative matcher of Model/Regex.lean).",
+   note="Trusted: Lean kernel; axioms propext/Classical.choice/Quot.sound at most; harness + comparer; the Go toolchain's unicode tables (regenerated into Gen/CaseTable.lean) and utf8 decoding as transcribed in Model/StrU.lean (Proofs/C01StrU: on ASCII input the Unicode model IS the ASCII model, through the whole engine — strU_parse_ascii; idempotence laws; beyond ASCII the run decides). String semantics are byte-level (Go len/HasPrefix/Contains). Regex: four fixed patterns and pure-literal patterns only; Email/JSON/JWT/MAC are C20's, Normalize/Slugify and Coerce are outside (pinned by c01_opaque_methods). The epsilon of float MultipleOf is the float-computed max(1e-10, |d|*1e-6) of the code comment. Float.Int accepts +-Inf (Trunc(Inf) == Inf), read as 'no fractional part'. Named Go types: foreign for the constructors of the predeclared types (documented strict type semantics); the schema's own type for the generic constructors — where built-in checks reject every value (open numN:*) and StringTyped/BoolTyped accept nothing (open strN:*, boolN:*).",
    design="DESIGN.md §5 C01; notes/C01.md")
 
 MODULES = ["Gozod.Proofs.C01", "Gozod.Proofs.C01Methods", "Gozod.Proofs.C01StrU"]
@@ -77,6 +77,7 @@ def _run(res):
     res.coverage["rule"] = ("strings: String()/StringPtr(), 0-8 checks (Min/Max/Length at len-1..len+1, StartsWith/EndsWith/Includes on fragments of the input, Lowercase/Uppercase, Trim/ToLowerCase/ToUpperCase, 4 fixed regexes, "
         "pure-literal regexes in 6 anchoring shapes) on ASCII and non-ASCII inputs (cased/caseless runes of every UTF-8 width, every Unicode white-space rune, invalid and truncated sequences, random runes < U+20000) as string, *string, **string and foreign kinds; "
         "numerics: 12 kinds x value/pointer constructors, 0-7 checks (Gt/Gte/Lt/Lte/Min/Max/sign shorthands at and next to the input, Safe, Finite, integer MultipleOf/Step, float MultipleOf/Step with divisors placing the input at / 1 ulp / (1+-1e-3)*epsilon around a multiple, Float.Int) on value, pointer, pointer-to-pointer and foreign inputs; "
+        "constructors: every exported one incl. aliases and the generic constructors of package types, 5-8% instantiated with a named Go type (numN/strN/boolN lines); "
         "enum/literal over string, int, bool, float64 and mixed-any value sets with every constructor variant, inputs in, out, equal values of other dynamic types, named types, pointers; Bool/BoolPtr with 0-2 refinements on bool, *bool, **bool, foreign. "
         "translators: method table (go/ast, all exported methods of the six types) and unicode tables. distinct = distinct op lines.")
     res.assumptions += ["byte-level string semantics", "Go toolchain unicode tables (Gen/CaseTable.lean) for TrimSpace/ToLower/ToUpper",
